@@ -50,6 +50,61 @@ var fileImportRewrites = map[string]map[string][2]string{
 
 var chanOps = map[string]int{}
 
+// files whose channels are close signals only: close(ch) and the blocking receive are rewritten
+// to vrt.CloseChan / vrt.RecvChan (scheduling points)
+var chanSignalFiles = map[string]bool{
+	"service/flv/httpflv.go": true,
+}
+
+func recvOf(s ast.Stmt) ast.Expr {
+	es, ok := s.(*ast.ExprStmt)
+	if !ok {
+		return nil
+	}
+	u, ok := es.X.(*ast.UnaryExpr)
+	if !ok || u.Op != token.ARROW {
+		return nil
+	}
+	return u.X
+}
+
+func vrtCall(fn string, arg ast.Expr) ast.Stmt {
+	return &ast.ExprStmt{X: &ast.CallExpr{Fun: &ast.SelectorExpr{X: ast.NewIdent("__vrt"), Sel: ast.NewIdent(fn)}, Args: []ast.Expr{arg}}}
+}
+
+// rewriteChanSignals handles statement lists: `<-ch`, `select { case <-ch: body }`, `close(ch)`.
+func rewriteChanSignals(list []ast.Stmt) ([]ast.Stmt, bool) {
+	changed := false
+	var out []ast.Stmt
+	for _, s := range list {
+		if ch := recvOf(s); ch != nil {
+			out = append(out, vrtCall("RecvChan", ch))
+			changed = true
+			continue
+		}
+		if sel, ok := s.(*ast.SelectStmt); ok && len(sel.Body.List) == 1 {
+			cc := sel.Body.List[0].(*ast.CommClause)
+			if ch := recvOf(cc.Comm); cc.Comm != nil && ch != nil {
+				out = append(out, vrtCall("RecvChan", ch))
+				out = append(out, cc.Body...)
+				changed = true
+				continue
+			}
+		}
+		if es, ok := s.(*ast.ExprStmt); ok {
+			if call, ok := es.X.(*ast.CallExpr); ok {
+				if id, ok := call.Fun.(*ast.Ident); ok && id.Name == "close" && len(call.Args) == 1 {
+					out = append(out, vrtCall("CloseChan", call.Args[0]))
+					changed = true
+					continue
+				}
+			}
+		}
+		out = append(out, s)
+	}
+	return out, changed
+}
+
 // statement-level scheduling points (-fine): plain-memory accesses between two synchronisation
 // operations become interleavable in the named files
 var finePrefixes []string
@@ -277,6 +332,23 @@ func rewriteFile(path, rel string) ([]byte, bool) {
 		}
 		return true
 	})
+	if chanSignalFiles[rel] {
+		ast.Inspect(f, func(n ast.Node) bool {
+			switch v := n.(type) {
+			case *ast.BlockStmt:
+				if l, ch := rewriteChanSignals(v.List); ch {
+					v.List = l
+					needVrt = true
+				}
+			case *ast.CaseClause:
+				if l, ch := rewriteChanSignals(v.Body); ch {
+					v.Body = l
+					needVrt = true
+				}
+			}
+			return true
+		})
+	}
 	if isFine(rel) {
 		for _, cg := range f.Comments {
 			for _, c := range cg.List {
